@@ -81,14 +81,21 @@ RULE = ("random command sequences (create in folder / -sf / nested / -n / patter
         "new ascmhl folders of histories that wrote, and its write sequence equals the model's op list. Non-trivial: the scenario contains a create after the first one.")
 
 
+# recorded inputs that run first on every run: a MEDIA folder that happens to be called like the tool's folder in older
+# documents (asc-mhl), at a root that has no history: no command may rename, move or change it
+CORPUS = [{"tree": {"asc-mhl": {"d": {"notes.txt": {"f": "6e6f"}, "sub": {"d": {"x.bin": {"f": "01"}}}}}, "clip.mov": {"f": "0203"}},
+           "steps": [{"op": "verify"}, {"op": "info"}, {"op": "diff"}, {"op": "verifydh"}, {"op": "infosf", "file": "clip.mov", "root": ""}, {"op": "flatten"},
+                     {"op": "create", "fmts": ["md5"]}, {"op": "verify"}, {"op": "create", "fmts": ["md5"], "root": "asc-mhl"}, {"op": "info"}]}]
+
+
 def check(rep, tier, seed):
     n = 40 if tier == "quick" else 800
     scratch = core.Scratch("C14")
     model = world.new_model()
     try:
-        for i in range(n):
+        for i in range(-len(CORPUS), n):
             rng = core.rng_for(seed, f"C14/{i}")
-            scn = scenario_nested_sf(rng, i) if i % 5 == 4 else scenario(rng, i)
+            scn = CORPUS[i + len(CORPUS)] if i < 0 else scenario_nested_sf(rng, i) if i % 5 == 4 else scenario(rng, i)
             io, root = world.run_impl(scn, scratch, snap=True)
             mo = world.run_model(scn, model)
             for st, o in zip(scn["steps"], io):
